@@ -181,12 +181,18 @@ def check(run, prog, tier):
             blens |= {H + size - 8 - 1, H + size - 8, H + size - 8 + 2}
         for blen in sorted(b for b in blens if b >= 0):
             combos.append((blen, size))
-    for (blen, size), pv, mtv, rcv in itertools.product(
-            combos, (0, 1, 2), (min(mt_vals), max(mt_vals), bad_mt), (min(rc_vals), max(rc_vals), bad_rc)):
+    # the bytes after the header are opaque to the decoder (payload and trailing bytes are handed on as they are): every
+    # case is evaluated on a patterned buffer and, for the well-formed headers, on an all-zero one - a decoder that looks
+    # at that content (padding, terminators) treats the two differently
+    zero = bytes(len(big))
+    for ((blen, size), pv, mtv, rcv), content in itertools.product(itertools.product(
+            combos, (0, 1, 2), (min(mt_vals), max(mt_vals), bad_mt), (min(rc_vals), max(rc_vals), bad_rc)), (big, zero)):
         if size > 0x100 and (pv, mtv, rcv) != (1, min(mt_vals), min(rc_vals)) and blen > H + 8:
             continue  # large buffers only for the well-formed header (keeps the case count reasonable)
+        if content is zero and ((pv, mtv, rcv) != (1, min(mt_vals), min(rc_vals)) or size > 0x100):
+            continue
         cases += 1
-        data = big[:blen]
+        data = content[:blen]
         U = (0x1234, 0x5678, size, 0x9ABC, 0xDEF0, pv, 0x42, mtv, rcv)
 
         def leaf(tm):
